@@ -346,6 +346,15 @@ func (p *parser) prim() *Expr {
 		return &Expr{Op: "lit", Tok: p.t[p.i-1], Bin: true}
 	case t.Kind == TIdent:
 		p.i++
+		if t.Low == "convert" && p.isOp("(") {
+			// convert(expr, type): the type name travels in Qual
+			p.i++
+			e := &Expr{Op: "func", Name: "convert", Args: []*Expr{p.expr()}}
+			p.expectOp(",")
+			e.Qual = p.ident()
+			p.expectOp(")")
+			return e
+		}
 		if p.op("(") {
 			e := &Expr{Op: "func", Name: t.Low}
 			if !p.op(")") {
